@@ -14,11 +14,9 @@ def sig(scen, kind, detail, rec=None):
     return {"family": "parse", "kind": kind, "base": name}
 
 
-def run(tier):
-    t0 = time.time()
-    quick = tier == "quick"
-    rng = random.Random(vlib.seed())
-    v = vlib.Verdict(PROP)
+def scenarios(rng, quick, option_shapes=False):
+    """(scenarios, bases, chunks, generator results).  option_shapes: instead of a random sample of WireGen shapes take one shape
+    per (network-layer option shape, transport option shape) - the packets whose re-serialisation has something to compute."""
     chunks, g = vlib.tlc_generate("wire/Faults", "Faults_q.cfg" if quick else "Faults_t.cfg", timeout=900)
     u = {}
     for s in chunks:
@@ -40,10 +38,41 @@ def run(tier):
             bases.append({"raw": list(b), "name": n + "+plen0", "pre": [[o + 4, 0], [o + 5, 0]]})
         if n.startswith("ip4_") and (not quick or n.endswith("rr_udp_v0")):
             bases.append({"raw": list(b), "name": n + "+totlen0", "pre": [[o + 2, 0], [o + 3, 0]]})
-    bases += rng.sample(shapes, 25 if quick else 400)
+    if option_shapes:
+        seen = {}
+        for s in shapes:
+            if s["pay"] == "even" and (s["link"] == "eth" or not quick):
+                seen.setdefault((s["link"], s["net"], s["ip4opts"], s["ext"], s["tr"], s["tcpopts"]), s)
+        bases += list(seen.values())
+    else:
+        bases += rng.sample(shapes, 25 if quick else 400)
     scen = [dict({"base": {k: x for k, x in b.items() if k != "pre"}, "faults": c["faults"], "chunk": c["chunk"]},
                  **({"pre": b["pre"]} if "pre" in b else {})) for b in bases for c in chunks]
-    p = vlib.Pipeline(PROP, "parse_safe", "wire/FaultTrace")
+    return scen, bases, chunks, (g, g2)
+
+
+def parsed_serialize_part(prop, v, quick):
+    """C02 over parsed packets: every packet a damaged buffer is accepted as must serialize to exactly size() bytes."""
+    rng = random.Random(vlib.seed())
+    scen, bases, chunks, _ = scenarios(rng, quick, option_shapes=True)
+    p = vlib.Pipeline(prop, "parse_safe", "wire/FaultTrace", "FaultTrace_%s.cfg" % prop)
+    for i in range(0, len(scen), 4000):
+        p.push(scen[i:i + 4000], "pf%d" % (i // 4000), ["--batch", "40", "--scen-timeout", "60"], timeout=3400)
+    p.confirm(v, sig)
+    return {"parsed_packets_bases": len(bases), "parsed_packets_faults_per_base": sum(len(c["faults"]) for c in chunks),
+            "parsed_packets_evaluations": p.stats["events"], "parsed_packets_replay": p.stats,
+            "parsed_packets_rule": "every packet that the entry point or a layer constructor accepts from a damaged buffer (catalogue, "
+                                   "independent-encoder packets, one WireGen shape per option-shape combination; every truncation and "
+                                   "14 byte lies at every header offset) must serialize without throwing to exactly size() bytes"}
+
+
+def run(tier):
+    t0 = time.time()
+    quick = tier == "quick"
+    rng = random.Random(vlib.seed())
+    v = vlib.Verdict(PROP)
+    scen, bases, chunks, (g, g2) = scenarios(rng, quick)
+    p = vlib.Pipeline(PROP, "parse_safe", "wire/FaultTrace", "FaultTrace_C01.cfg")
     chunk = 4000
     for i in range(0, len(scen), chunk):
         p.push(scen[i:i + chunk], "f%d" % (i // chunk), ["--batch", "40", "--scen-timeout", "60"], timeout=3400)
@@ -75,4 +104,4 @@ def run(tier):
 
 
 def replay(path):
-    return vlib.Pipeline(PROP, "parse_safe", "wire/FaultTrace").replay_file(path)
+    return vlib.Pipeline(PROP, "parse_safe", "wire/FaultTrace", "FaultTrace_C01.cfg").replay_file(path)
